@@ -97,7 +97,14 @@ def run_concat(case, rec):
     baseline = open_objects()
     try:
         ws = Workspace.create(path, version=case["version"])
-        grp = DrillholeGroup.create(ws, name="DH")
+        nested = (case["extra"] + len(case["op"]) + len(variant)) % 2 == 1
+        if nested:
+            from geoh5py.groups import ContainerGroup
+
+            grp = DrillholeGroup.create(ws, name="DH", parent=ContainerGroup.create(ws, name="campaign"))
+            rec.see("drillhole-groups-nested-in-a-container")
+        else:
+            grp = DrillholeGroup.create(ws, name="DH")
         for i in range(3):
             h = Drillhole.create(ws, parent=grp, name=f"h{i}", collar=[float(i), 0.0, 10.0], surveys=np.array([[0.0, 0.0, -90.0], [50.0, 10.0, -80.0]]))
             h.add_data({"Au": {"depth": np.arange(4.0) + 0.5, "values": np.arange(4.0) + 10 * i}, "Cu": {"depth": np.arange(4.0) + 0.5, "values": np.arange(4.0) + 100 * i}}, property_group="assay")
@@ -242,7 +249,7 @@ def run_concat(case, rec):
                 rec.see("old-concatenated-handle-edit-refused:" + type(exc).__name__)
         old_hole = None
         rec.nontrivial = len(expect) >= 1
-        rec.shape = ["concat", variant, case["op"], case["extra"], case["version"]]
+        rec.shape = ["concat", variant, case["op"], case["extra"], case["version"], nested]
         rec.sample = {"variant": "concat:" + variant, "ops": [e[0] for e in expect]}
     finally:
         try:
@@ -694,7 +701,27 @@ def judge(rec, e, ws, path, held, live, baseline, variant, state):
     del held
     # 5. re-opening restores full access to the same content
     try:
+        if state.get("visit", len(reopened)) % 2 == 0:
+            # a helper visits the closed workspace for reading first (what monitored_directory_copy and most scripts do)
+            from geoh5py.shared.utils import fetch_active_workspace
+
+            with fetch_active_workspace(ws, mode="r") as w:
+                visit = snap.api_snapshot(w)
+            hist.diff_snapshots(rec, PROP, "C11.reopen-restores", reopened, visit, variant + ":read-only-visit")
+            rec.check("C11.not-closed", not bool(ws._geoh5), op=variant + ":read-only-visit", cls="Workspace", attr="", detail="the helper left the workspace open although it found it closed")  # noqa: SLF001
+            rec.see("read-only-helper-visits-before-the-reopen")
         ws.open()
+        # full access: the workspace was made for writing, and a plain open() gives that back
+        try:
+            ws.ga_version = str(ws.ga_version)
+            wrote = None
+        except Exception as exc:  # noqa: BLE001
+            from ..core import exc_origin
+
+            if not exc_origin(exc)[0]:
+                raise
+            wrote = exc
+        rec.check("C11.reopen-restores", wrote is None, op=variant, cls="Workspace", attr="write-after-reopen", detail=f"after the close the workspace (made for writing) was opened again with open(): a write raises {type(wrote).__name__}: {str(wrote)[:120]}; file mode {ws.geoh5.mode}")
         again = snap.api_snapshot(ws)
         hist.diff_snapshots(rec, PROP, "C11.reopen-restores", reopened, again, variant)
         rec.evals["C11.reopen-restores"] += 1
